@@ -68,7 +68,7 @@ def run_estimates(el, feed, call, client=None, want_client=False, shared_model_p
     res, exc = None, None
     try:
         res = client.get_estimates(
-            feed.copy(deep=True),
+            feed_argument(feed, call),
             el.election_id,
             el.office,
             call["estimands"],
@@ -86,6 +86,23 @@ def run_estimates(el, feed, call, client=None, want_client=False, shared_model_p
     if want_client:
         return res, exc, client
     return res, exc
+
+
+def feed_argument(feed, call):
+    """The live feed as the client accepts it: a DataFrame, or (call["feed_as_lists"]) the documented "list of lists"
+    whose first element is the header, with plain python values as a JSON / database client would deliver them."""
+    if not call.get("feed_as_lists"):
+        return feed.copy(deep=True)
+    rows = [list(feed.columns)]
+    for rec in feed.to_dict(orient="records"):
+        row = []
+        for c in feed.columns:
+            v = rec[c]
+            if hasattr(v, "item"):
+                v = v.item()
+            row.append(v)
+        rows.append(row)
+    return rows
 
 
 def run_estimates_shared(el, feed, call, client, objs):
